@@ -98,3 +98,130 @@ Definition rom_case (aw bw : Z) (pad : bool) (data : romdata) (addrs : list Z) :
    match rom_table aw bw pad data with Some t => (1, t) | None => (0, []) end).
 
 Definition fun_table (t : list (Z * Z)) : romdata := RomFun (fun a => assoc t a).
+
+(* ------------------------------------------------------------------ *)
+(* Compact protocol.  Coq's numeral parser/printer costs ~1-3 ms per number, so the
+   harness sends one (hexadecimal) literal per cycle, sends what the implementation
+   produced, and receives booleans; the verbose [mem_case] above is evaluated only to
+   explain a disagreement. *)
+
+Definition take (w z : Z) : Z * Z := (Z.land z (Z.ones w), Z.shiftr z w).
+
+Fixpoint dec_list (w : Z) (n : nat) (z : Z) : list Z :=
+  match n with
+  | O => []
+  | S n' => let '(x, z') := take w z in x :: dec_list w n' z'
+  end.
+
+Fixpoint dec_writes (aw dw : Z) (n : nat) (z : Z) : list wport * Z :=
+  match n with
+  | O => ([], z)
+  | S n' =>
+      let '(a, z1) := take aw z in
+      let '(d, z2) := take dw z1 in
+      let '(e, z3) := take 1 z2 in
+      let '(ws, z4) := dec_writes aw dw n' z3 in
+      ((a, d, e) :: ws, z4)
+  end.
+
+Definition dec_cycle (aw dw : Z) (nw nr : nat) (z : Z) : cycle :=
+  let '(ws, z') := dec_writes aw dw nw z in (ws, dec_list aw nr z').
+
+(* first element in the lowest bits *)
+Definition enc_list (w : Z) (l : list Z) : Z :=
+  fold_right (fun x acc => x + Z.shiftl acc w) 0 l.
+
+Fixpoint items_eqb (a b : list (Z * Z)) : bool :=
+  match a, b with
+  | [], [] => true
+  | (k, v) :: r, (k', v') :: s => (k =? k') && (v =? v') && items_eqb r s
+  | _, _ => false
+  end.
+
+(* flags: [history admissible; two spec formulations agree; Coq spec reads = expected reads;
+           Coq spec final = expected final;
+           sim model reads = spec; sim model dict = given items;
+           fast model reads = spec; fast model dict = given items;
+           hash-map model reads = spec; hash-map model at probes = given values] *)
+Definition mem_check (dflt aw dw : Z) (nw nr : nat) (init : list (Z * Z)) (ph : list Z)
+           (exp_reads : list Z) (probes exp_final : list Z)
+           (sim_items fast_items : list (Z * Z)) (comp_probes : list Z)
+           (p_sim p_fast p_comp : list nat) : list bool :=
+  let h := map (dec_cycle aw dw nw nr) ph in
+  let nl := limbs_of_width dw in
+  let '(sr, sA) := arr_run (arr_init init dflt) h in
+  let er := map (dec_list dw nr) exp_reads in
+  let '(r1, d1) := sim_mem_run_w dflt dw init (perm_hist p_sim h) in
+  let '(r2, d2) := fast_mem_run dflt init (perm_hist p_fast h) in
+  let '(r3, h3) := comp_mem_run nl (c_init nl c_size init) (perm_hist p_comp h) in
+  [ forallb cycle_okb h; llz_eqb sr (hist_reads (arr_init init dflt) [] h);
+    llz_eqb sr er; lz_eqb (map sA probes) exp_final;
+    llz_eqb r1 sr; items_eqb d1 sim_items;
+    llz_eqb r2 sr; items_eqb d2 fast_items;
+    llz_eqb r3 sr; lz_eqb (map (c_lookup nl h3) probes) comp_probes ].
+
+(* the verbose form on a packed history *)
+Definition mem_case_packed (dflt aw dw : Z) (nw nr : nat) (init : list (Z * Z)) (ph : list Z)
+           (p_sim p_fast p_comp : list nat) (probes : list Z) :=
+  mem_case dflt dw init (map (dec_cycle aw dw nw nr) ph) p_sim p_fast p_comp probes.
+
+(* -- tiny memory: outcome of one operation as one small number -- *)
+Definition enc_items (d : list (Z * Z)) : Z :=
+  fold_right (fun kv acc => 1 + 2 * (fst kv + 2 * (snd kv + 2 * acc))) 0 d.
+Definition out_spec (nr : nat) (rd : list Z) (a0 a1 : Z) : Z :=
+  enc_list 1 rd + 2 ^ Z.of_nat nr * (a0 + 2 * a1).
+Definition out_items (nr : nat) (rd : list Z) (d : list (Z * Z)) : Z :=
+  enc_list 1 rd + 2 ^ Z.of_nat nr * enc_items d.
+
+(* every admissible operation on the given content; the implementation's outcomes are
+   passed in.  flags: [number of operations agrees; Coq spec = expected (Python spec);
+   sim model = Simulation; fast model = FastSimulation; hash-map model = CompiledSimulation;
+   all three models' reads = spec reads] *)
+Definition sweep_check (dflt : Z) (init : list (Z * Z)) (nw nr : nat)
+           (p_sim p_fast p_comp : list nat) (exp sim fast comp : list Z) : list bool :=
+  let ops := ok_ops nw nr in
+  let A0 := arr_init init dflt in
+  let spec_c := fun c => let '(rd, A) := arr_step A0 c in out_spec nr rd (A 0) (A 1) in
+  let sim_c := fun c => let '(rd, d) := sim_mem_step_w dflt 1 init (permute p_sim (fst c), snd c) in
+                        out_items nr rd d in
+  let fast_c := fun c => let '(rd, d) := fast_mem_step dflt init (permute p_fast (fst c), snd c) in
+                         out_items nr rd d in
+  let comp_c := fun c => let '(rd, h) := comp_mem_step 1 (c_init 1 c_size init) (permute p_comp (fst c), snd c) in
+                         out_spec nr rd (c_lookup 1 h 0) (c_lookup 1 h 1) in
+  let rd_of := fun x => x mod 2 ^ Z.of_nat nr in
+  [ (length ops =? length exp)%nat;
+    lz_eqb (map spec_c ops) exp;
+    lz_eqb (map sim_c ops) sim;
+    lz_eqb (map fast_c ops) fast;
+    match comp with [] => true | _ => lz_eqb (map comp_c ops) comp end;
+    forallb (fun c => (rd_of (sim_c c) =? rd_of (spec_c c)) && (rd_of (fast_c c) =? rd_of (spec_c c))
+                      && ((negb (dflt =? 0)) || (rd_of (comp_c c) =? rd_of (spec_c c)))) ops ].
+
+(* a long walk: operation indices packed [per] to a literal with [bits]-bit fields;
+   expected reads (nr bits per cycle) packed 32 cycles to a literal *)
+Definition walk_check (dflt : Z) (init : list (Z * Z)) (nw nr : nat) (bits : Z) (per n : nat)
+           (pcodes : list Z) (exp_reads : list Z) (p_sim p_fast p_comp : list nat) :=
+  let ops := ok_ops nw nr in
+  let codes := firstn n (flat_map (dec_list bits per) pcodes) in
+  let h := map (fun i => nth (Z.to_nat i) ops ([], [])) codes in
+  let '(sr, sA) := arr_run (arr_init init dflt) h in
+  let er := firstn n (flat_map (dec_list (Z.of_nat nr) 32) exp_reads) in
+  let '(r1, d1) := sim_mem_run_w dflt 1 init (perm_hist p_sim h) in
+  let '(r2, d2) := fast_mem_run dflt init (perm_hist p_fast h) in
+  let '(r3, h3) := comp_mem_run 1 (c_init 1 c_size init) (perm_hist p_comp h) in
+  ([ forallb cycle_okb h; llz_eqb sr (hist_reads (arr_init init dflt) [] h);
+     lz_eqb (map (enc_list 1) sr) er; llz_eqb r1 sr; llz_eqb r2 sr; llz_eqb r3 sr ],
+   ([sA 0; sA 1], d1, d2, [c_lookup 1 h3 0; c_lookup 1 h3 1])).
+
+(* the hash-map helpers: real chains and real lookup results are passed in *)
+Fixpoint chains_eqb (a b : list (list (Z * Z))) : bool :=
+  match a, b with
+  | [], [] => true
+  | x :: r, y :: s => items_eqb x y && chains_eqb r s
+  | _, _ => false
+  end.
+
+Definition hm_check (size nl : nat) (ops : list (Z * Z * Z))
+           (real_chains : list (list (Z * Z))) (real_outs : list Z) : list bool :=
+  let '(chains, outs) := hm_case size nl ops in
+  [chains_eqb chains real_chains; lz_eqb outs real_outs].
